@@ -10,24 +10,391 @@ import CnvVerif.Lemmas.Bins2
 import CnvVerif.Lemmas.Bins3
 namespace CnvVerif
 
+/-! ### sorting a one-chromosome table -/
+
+theorem mergeSort_congr {α} (le₁ le₂ : α → α → Bool) (l : List α)
+    (h : ∀ a ∈ l, ∀ b ∈ l, le₁ a b = le₂ a b) : l.mergeSort le₁ = l.mergeSort le₂ := by
+  have := List.map_mergeSort (r := le₁) (s := le₂) (f := id) (l := l) (by simpa using h)
+  simpa using this
+
+theorem sortLex_single (c : String) (t : Table) (hc : ∀ r ∈ t, r.chrom = c) :
+    sortLex t = sortSE t := by
+  unfold sortLex sortSE
+  apply mergeSort_congr
+  intro a ha b hb
+  have h1 := hc a ha
+  have h2 := hc b hb
+  unfold lexLe seLe
+  rw [h1, h2]
+  simp [String.lt_irrefl]
+
+theorem resortChrom_single (c : String) (t : Table) (hc : ∀ r ∈ t, r.chrom = c) :
+    resortChrom t = t := by
+  unfold resortChrom
+  apply List.mergeSort_of_pairwise
+  rw [List.pairwise_iff_forall_sublist]
+  intro a b hab
+  have ha : a ∈ t := hab.subset (by simp)
+  have hb : b ∈ t := hab.subset (by simp)
+  unfold chromOnlyLe chromKeyLe
+  rw [hc a ha, hc b hb]
+  simp
+
+theorem mergeGo_chrom (bp : Int) (c : String) (cur : Row) (genes : List String) (l : List Row)
+    (hcur : cur.chrom = c) (hl : ∀ r ∈ l, r.chrom = c) :
+    ∀ r ∈ mergeGo bp cur genes l, r.chrom = c := by
+  induction l generalizing cur genes with
+  | nil =>
+    intro r hr
+    simp only [mergeGo, List.mem_singleton] at hr
+    subst hr; exact hcur
+  | cons x xs ih =>
+    unfold mergeGo
+    split
+    · intro r hr
+      rcases List.mem_cons.mp hr with h | h
+      · subst h; exact hcur
+      · exact ih x [x.gene] (hl x (by simp)) (fun r hr => hl r (by simp [hr])) r h
+    · exact ih _ _ hcur (fun r hr => hl r (by simp [hr]))
+
+theorem mergeChrom_chrom (bp : Int) (c : String) (l : List Row) (hl : ∀ r ∈ l, r.chrom = c) :
+    ∀ r ∈ mergeChrom bp l, r.chrom = c := by
+  cases l with
+  | nil => simp [mergeChrom]
+  | cons x xs =>
+    exact mergeGo_chrom bp c x [x.gene] xs (hl x (by simp)) (fun r hr => hl r (by simp [hr]))
+
+theorem mergeSorted_chrom (c : String) (l : List Row) (hl : ∀ r ∈ l, r.chrom = c) :
+    ∀ r ∈ mergeSorted l, r.chrom = c :=
+  mergeChrom_chrom 0 c _ (fun r hr => hl r ((mem_sortSE l r).mp hr))
+
+/-- the slow path of `merge` on a non-empty one-chromosome table is `mergeSorted` -/
+theorem mergeSlow_single (c : String) (t : Table) (hc : ∀ r ∈ t, r.chrom = c) (hne : t ≠ []) :
+    resortChrom ((groupByChrom (sortLex t)).flatMap (fun g => mergeChrom 0 g.2)) = mergeSorted t := by
+  rw [sortLex_single c t hc]
+  have hs : ∀ r ∈ sortSE t, r.chrom = c := fun r hr => hc r ((mem_sortSE t r).mp hr)
+  have hsne : sortSE t ≠ [] := by
+    cases t with
+    | nil => exact absurd rfl hne
+    | cons x xs =>
+      intro h
+      have : x ∈ sortSE (x :: xs) := (mem_sortSE _ x).mpr (by simp)
+      rw [h] at this; simp at this
+  have hf : (sortSE t).filter (fun r => r.chrom == c) = sortSE t :=
+    List.filter_eq_self.mpr (fun r hr => by simp [hs r hr])
+  unfold groupByChrom
+  rw [chromsInOrder_const (sortSE t) c hs hsne]
+  simp only [List.map_cons, List.map_nil, List.flatMap_cons, List.flatMap_nil, List.append_nil, hf]
+  exact resortChrom_single c _ (mergeSorted_chrom c t hc)
+
+/-! ### the fast path: positive gaps w.r.t. the running maximum mean `Canon` -/
+
+theorem gaps_pos (m : Int) (xs : List Row)
+    (h : ∀ p ∈ (xs.map (·.s)).zip (m :: cummaxGo m (xs.map (·.e))), p.1 - p.2 > 0) :
+    (∀ r ∈ xs, m < r.s) ∧ xs.Pairwise (fun a b => a.e < b.s) := by
+  induction xs generalizing m with
+  | nil => simp
+  | cons y ys ih =>
+    simp only [List.map_cons, cummaxGo, List.zip_cons_cons, List.mem_cons, forall_eq_or_imp] at h
+    obtain ⟨h1, h2⟩ := h
+    obtain ⟨i1, i2⟩ := ih (max m y.e) h2
+    refine ⟨?_, List.pairwise_cons.mpr ⟨?_, i2⟩⟩
+    · intro r hr
+      rcases List.mem_cons.mp hr with h | h
+      · subst h; omega
+      · have := i1 r h; omega
+    · intro r hr
+      have := i1 r hr; omega
+
+theorem fast_canon (t : Table) (hp : ∀ r ∈ t, r.s < r.e)
+    (h : (gapSizes t).all (fun g => g > -0) = true) : Canon t := by
+  refine ⟨hp, ?_⟩
+  cases t with
+  | nil => simp
+  | cons x xs =>
+    have hg : ∀ p ∈ (xs.map (·.s)).zip (x.e :: cummaxGo x.e (xs.map (·.e))), p.1 - p.2 > 0 := by
+      intro p hp'
+      simp only [gapSizes, List.map_cons, List.drop_succ_cons, List.drop_zero, cummax, List.all_map,
+        List.all_eq_true, Function.comp_apply, decide_eq_true_eq] at h
+      have := h p hp'
+      omega
+    obtain ⟨g1, g2⟩ := gaps_pos x.e xs hg
+    exact List.pairwise_cons.mpr ⟨g1, g2⟩
+
+theorem mergeSorted_nil : mergeSorted [] = [] := by
+  simp [mergeSorted, sortSE, mergeChrom]
+
+/-- everything the later steps need about `merge(bp=0)` on a one-chromosome table -/
+theorem mergeTable_single_facts (c : String) (t : Table) (hc : ∀ r ∈ t, r.chrom = c)
+    (hp : ∀ r ∈ t, r.s < r.e) :
+    Canon (mergeTable 0 t) ∧ (∀ p, cov (mergeTable 0 t) p ↔ cov t p) ∧
+      ∀ r ∈ mergeTable 0 t, r.chrom = c := by
+  unfold mergeTable
+  split
+  · exact ⟨⟨hp, by
+      cases t with
+      | nil => simp
+      | cons x xs => simp at *⟩, fun _ => Iff.rfl, hc⟩
+  · rename_i hne
+    split
+    · rename_i hfast
+      exact ⟨fast_canon t hp hfast, fun _ => Iff.rfl, hc⟩
+    · have hne' : t ≠ [] := by
+        intro h; subst h; simp at hne
+      simp only
+      rw [mergeSlow_single c t hc hne']
+      exact ⟨mergeSorted_canon t hp, mergeSorted_cov t, mergeSorted_chrom c t hc⟩
+
 /-- `merge(bp=0)` of a one-chromosome table of positive-length rows yields the same intervals as
     sorting by (start, end) and merging -/
 theorem mergeTable_single_ivOf (c : String) (t : Table) (hc : ∀ r ∈ t, r.chrom = c)
     (hp : ∀ r ∈ t, r.s < r.e) :
     (mergeTable 0 t).map ivOf = (mergeSorted t).map ivOf ∧ ∀ r ∈ mergeTable 0 t, r.chrom = c := by
-  sorry
+  obtain ⟨h1, h2, h3⟩ := mergeTable_single_facts c t hc hp
+  refine ⟨canon_unique _ _ h1 (mergeSorted_canon t hp) ?_, h3⟩
+  intro p
+  rw [h2 p, mergeSorted_cov]
+
+/-! ### coordinates only: rows stripped of chromosome and gene -/
+
+def normRow (r : Row) : Row := { chrom := "", s := r.s, e := r.e, gene := "" }
+
+theorem map_normRow_of_ivOf {l l' : List Row} (h : l.map ivOf = l'.map ivOf) :
+    l.map normRow = l'.map normRow := by
+  have e : normRow = (fun p : Int × Int => ({ chrom := "", s := p.1, e := p.2, gene := "" } : Row)) ∘ ivOf := by
+    funext r; rfl
+  rw [e, ← List.map_map, ← List.map_map, h]
+
+theorem splitInto_norm (r : Row) (n : Nat) :
+    (splitInto r n).map ivOf = (splitInto (normRow r) n).map ivOf := by
+  simp only [splitInto, List.map_map]
+  apply List.map_congr_left
+  intro i _
+  rfl
+
+theorem splitRow_norm (avg : Rat) (m : Int) (r : Row) :
+    (splitRow avg m r).map ivOf = (splitRow avg m (normRow r)).map ivOf := by
+  have e1 : (normRow r).s = r.s := rfl
+  have e2 : (normRow r).e = r.e := rfl
+  unfold splitRow
+  simp only [e1, e2]
+  by_cases h : r.e - r.s ≥ m
+  · simp only [h, if_true]
+    generalize (if (roundHalfEven (((r.e - r.s : Int) : Rat) / avg) == 0) = true then 1
+      else (roundHalfEven (((r.e - r.s : Int) : Rat) / avg)).toNat) = n
+    by_cases h2 : (n == 1) = true
+    · simp only [h2, if_true]; rfl
+    · simp only [h2]; exact splitInto_norm r n
+  · simp only [h, if_false]
+
+theorem flatMap_splitRow_norm (avg : Rat) (m : Int) (l : List Row) :
+    (l.flatMap (splitRow avg m)).map ivOf = ((l.map normRow).flatMap (splitRow avg m)).map ivOf := by
+  induction l with
+  | nil => rfl
+  | cons x xs ih =>
+    simp only [List.flatMap_cons, List.map_append, List.map_cons, ih, splitRow_norm avg m x]
+
+theorem flatMap_splitRow_congr (avg : Rat) (m : Int) (l l' : List Row) (h : l.map ivOf = l'.map ivOf) :
+    (l.flatMap (splitRow avg m)).map ivOf = (l'.flatMap (splitRow avg m)).map ivOf := by
+  rw [flatMap_splitRow_norm avg m l, flatMap_splitRow_norm avg m l', map_normRow_of_ivOf h]
+
+/-- `subdivide` on a one-chromosome table of positive rows -/
+theorem subdivide_single (c : String) (t : Table) (avg : Rat) (m : Int) (hc : ∀ r ∈ t, r.chrom = c)
+    (hp : ∀ r ∈ t, r.s < r.e) :
+    (subdivideTable avg m t).map ivOf = ((mergeSorted t).flatMap (splitRow avg m)).map ivOf :=
+  flatMap_splitRow_congr avg m _ _ (mergeTable_single_ivOf c t hc hp).1
 
 /-- `do_target --split` on a one-chromosome bait table -/
 theorem target_single_chrom (c : String) (baits : Table) (avg : Rat) (havg : 0 < avg)
     (hc : ∀ r ∈ baits, r.chrom = c) (hb : ∀ r ∈ baits, r.s ≤ r.e) :
     (doTargetCore baits true avg).map ivOf = (targetChrom avg baits).map ivOf := by
-  sorry
+  unfold doTargetCore targetChrom
+  simp only [if_true]
+  exact subdivide_single c _ avg _ (fun r hr => hc r (List.mem_filter.mp hr).1)
+    (nonempty_baits_pos baits hb)
+
+/-! ### subtraction sees only the coordinates of the excluded rows -/
+
+theorem subtractRow_norm (k : Row) (ex : List Row) :
+    subtractRow k ex = subtractRow k (ex.map normRow) := by
+  cases ex with
+  | nil => rfl
+  | cons f t =>
+    have hl : ((f :: t).getLast?.getD f).e = (((f :: t).map normRow).getLast?.getD (normRow f)).e := by
+      rw [List.getLast?_map]
+      cases (f :: t).getLast? <;> rfl
+    have hs : (f :: t).map (·.s) = ((f :: t).map normRow).map (·.s) := by
+      rw [List.map_map]; rfl
+    have he : (f :: t).map (·.e) = ((f :: t).map normRow).map (·.e) := by
+      rw [List.map_map]; rfl
+    have hlen : (f :: t).length = ((f :: t).map normRow).length := by simp
+    have hfs : f.s = (normRow f).s := rfl
+    simp only [subtractRow, List.map_cons] at *
+    rw [hl, hs, he, hlen, hfs]
+
+theorem subtractRow_congr (k : Row) (ex ex' : List Row) (h : ex.map ivOf = ex'.map ivOf) :
+    subtractRow k ex = subtractRow k ex' := by
+  rw [subtractRow_norm k ex, subtractRow_norm k ex', map_normRow_of_ivOf h]
+
+theorem overlapping_norm (k : Row) (b : List Row) :
+    (overlapping k b).map normRow = overlapping k (b.map normRow) := by
+  unfold overlapping
+  rw [List.filter_map]
+  rfl
+
+theorem overlapping_congr (k : Row) (b b' : List Row) (h : b.map ivOf = b'.map ivOf) :
+    (overlapping k b).map ivOf = (overlapping k b').map ivOf := by
+  have e : ivOf = ivOf ∘ normRow := by funext r; rfl
+  rw [e, ← List.map_map, ← List.map_map, overlapping_norm, overlapping_norm, map_normRow_of_ivOf h]
+
+/-! ### `resize_ranges` without chromosome sizes -/
+
+theorem resize_shrink (pad : Int) (hpad : 0 < pad) (a : Table) :
+    resizeTable (-1 * pad) noSizes a = shrinkRows pad a := by
+  unfold resizeTable shrinkRows
+  simp only [noSizes, clipInt]
+  rw [if_pos (by omega)]
+  congr 1
+  apply List.map_congr_left
+  intro r _
+  have e1 : r.s - -1 * pad = r.s + pad := by omega
+  have e2 : r.e + -1 * pad = r.e - pad := by omega
+  rw [e1, e2]
+
+theorem resize_grow (pad : Int) (hpad : 0 < pad) (tg : Table) :
+    resizeTable (1 * pad) noSizes tg = growRows pad tg := by
+  unfold resizeTable growRows
+  simp only [noSizes, clipInt]
+  rw [if_neg (by omega)]
+  apply List.map_congr_left
+  intro r _
+  have e1 : r.s - 1 * pad = r.s - pad := by omega
+  have e2 : r.e + 1 * pad = r.e + pad := by omega
+  rw [e1, e2]
+
+/-! ### `subtract` on one-chromosome tables -/
+
+theorem canon_startSorted (l : List Row) (h : Canon l) : StartSorted l := by
+  obtain ⟨hp, hpw⟩ := h
+  induction l with
+  | nil => exact List.Pairwise.nil
+  | cons x xs ih =>
+    obtain ⟨h1, h2⟩ := List.pairwise_cons.mp hpw
+    refine List.pairwise_cons.mpr ⟨?_, ih (fun r hr => hp r (by simp [hr])) h2⟩
+    intro b hb
+    have := h1 b hb
+    have := hp x (by simp)
+    omega
+
+theorem flatMap_congr_mem {α β} (l : List α) (f g : α → List β) (h : ∀ a ∈ l, f a = g a) :
+    l.flatMap f = l.flatMap g := by
+  induction l with
+  | nil => rfl
+  | cons x xs ih =>
+    rw [List.flatMap_cons, List.flatMap_cons, h x (by simp), ih (fun a ha => h a (by simp [ha]))]
+
+theorem subtract_single (c : String) (A T : Table) (hA : ∀ r ∈ A, r.chrom = c)
+    (hT : ∀ r ∈ T, r.chrom = c) (hApos : ∀ k ∈ A, 0 ≤ k.s)
+    (hTpos : ∀ r ∈ T, 0 ≤ r.s ∧ r.s < r.e) :
+    subtractTable A T = A.flatMap (fun k => subtractRow k (overlapping k (mergeSorted T))) := by
+  unfold subtractTable
+  split
+  · rename_i he
+    have : T = [] := by simpa using he
+    subst this
+    simp [mergeSorted_nil, overlapping, subtractRow]
+  · rename_i he
+    have hTne : T ≠ [] := by
+      intro h; subst h; simp at he
+    by_cases hAe : A = []
+    · subst hAe
+      simp [byRangesDf, bySharedChroms, chromsInOrder, groupByChrom]
+    · obtain ⟨hcan, hcov, hchr⟩ := mergeTable_single_facts c T hT (fun r hr => (hTpos r hr).2)
+      have hiv := (mergeTable_single_ivOf c T hT (fun r hr => (hTpos r hr).2)).1
+      have hne : mergeTable 0 T ≠ [] := by
+        cases T with
+        | nil => exact absurd rfl hTne
+        | cons x xs =>
+          intro h
+          have hx := hTpos x (by simp)
+          have : cov (x :: xs) x.s := ⟨x, by simp, Int.le_refl _, hx.2⟩
+          have := (hcov x.s).mpr this
+          rw [h] at this
+          exact (cov_nil _).mp this
+      have hwf : WFTable (mergeTable 0 T) := by
+        refine ⟨canon_startSorted _ hcan, ?_⟩
+        intro r hr
+        have hpos := hcan.1 r hr
+        refine ⟨?_, hpos⟩
+        have : cov (mergeTable 0 T) r.s := ⟨r, hr, Int.le_refl _, hpos⟩
+        obtain ⟨q, hq, h1, _⟩ := (hcov r.s).mp this
+        have := (hTpos q hq).1
+        omega
+      simp only
+      rw [byRangesDf_single c (mergeTable 0 T) A hchr hA hne hAe .outer true]
+      rw [List.flatMap_map]
+      apply flatMap_congr_mem
+      intro k hk
+      simp only
+      rw [selectRange_outer _ hwf k.s k.e (hApos k hk)]
+      apply subtractRow_congr
+      exact overlapping_congr k _ _ hiv
+
+theorem antiRegions_single (c : String) (a tg : Table)
+    (ha : ∀ r ∈ a, r.chrom = c) (ht : ∀ r ∈ tg, r.chrom = c) (hwf : WFTargets tg) :
+    antiRegions a tg = antiRegionsChrom Generated.ANTI_PAD a tg := by
+  have hpad : (0 : Int) < Generated.ANTI_PAD := by decide
+  unfold antiRegions antiRegionsChrom
+  have e1 : Generated.ANTI_ACCESS_RESIZE_SIGN = -1 := rfl
+  have e2 : Generated.ANTI_TARGET_RESIZE_SIGN = 1 := rfl
+  rw [e1, e2, resize_shrink _ hpad, resize_grow _ hpad]
+  apply subtract_single c
+  · intro r hr
+    simp only [shrinkRows, List.mem_filter, List.mem_map] at hr
+    obtain ⟨⟨q, hq, rfl⟩, _⟩ := hr
+    exact ha q hq
+  · intro r hr
+    simp only [growRows, List.mem_map] at hr
+    obtain ⟨q, hq, rfl⟩ := hr
+    exact ht q hq
+  · intro k hk
+    exact (shrinkRows_pos _ a k hk).1
+  · intro r hr
+    refine ⟨?_, growRows_pos _ hpad tg hwf r hr⟩
+    simp only [growRows, List.mem_map] at hr
+    obtain ⟨q, hq, rfl⟩ := hr
+    show 0 ≤ max 0 (q.s - Generated.ANTI_PAD)
+    omega
+
+theorem antiRegionsChrom_chrom (c : String) (pad : Int) (a tg : Table) (ha : ∀ r ∈ a, r.chrom = c) :
+    ∀ r ∈ antiRegionsChrom pad a tg, r.chrom = c := by
+  intro r hr
+  simp only [antiRegionsChrom, List.mem_flatMap] at hr
+  obtain ⟨k, hk, hr⟩ := hr
+  have hkc : k.chrom = c := by
+    simp only [shrinkRows, List.mem_filter, List.mem_map] at hk
+    obtain ⟨⟨q, hq, rfl⟩, _⟩ := hk
+    exact ha q hq
+  rcases subtractRow_carry k _ r hr with h | h
+  · rw [h.1, hkc]
+  · rw [h, hkc]
+
+theorem nameAnti_ivOf (t : Table) : (nameAnti t).map ivOf = t.map ivOf := by
+  unfold nameAnti
+  rw [List.map_map]
+  rfl
 
 /-- `get_antitargets` on one-chromosome tables (`a` = the accessible table it works on) -/
 theorem antitarget_single_chrom (c : String) (a tg : Table) (avg : Rat) (havg : 0 < avg) (m : Int)
     (ha : ∀ r ∈ a, r.chrom = c) (ht : ∀ r ∈ tg, r.chrom = c) (hwf : WFTargets tg) :
     (nameAnti (subdivideTable avg m (antiRegions a tg))).map ivOf =
       (antiChrom Generated.ANTI_PAD avg m a tg).map ivOf := by
-  sorry
-
+  rw [antiRegions_single c a tg ha ht hwf]
+  unfold antiChrom
+  rw [nameAnti_ivOf, nameAnti_ivOf]
+  exact subdivide_single c _ avg m (antiRegionsChrom_chrom c _ a tg ha)
+    (antiRegionsChrom_pos _ a tg)
 end CnvVerif
+#print axioms CnvVerif.mergeTable_single_ivOf
+#print axioms CnvVerif.target_single_chrom
+#print axioms CnvVerif.antitarget_single_chrom
